@@ -65,8 +65,8 @@ type c13Inv struct {
 type c13Op struct {
 	Kind   string `json:"kind"` // "sub" | "unsub" | "emit"
 	Cb     int    `json:"cb,omitempty"`
-	Type   string `json:"type"`            // sub: type or c13All for all; emit: event type
-	Via    string `json:"via,omitempty"`   // sub: "event" | "messages" | "all"
+	Type   string `json:"type"`          // sub: type or c13All for all; emit: event type
+	Via    string `json:"via,omitempty"` // sub: "event" | "messages" | "all"
 	Worker int    `json:"worker,omitempty"`
 }
 
@@ -92,10 +92,10 @@ func c13EventBytes(seq int, typ string) string {
 }
 
 type c13Reg struct {
-	typ            string // "*" = all
+	typ             string // "*" = all
 	subCall, subRet int64
-	unsubCalls     []int64
-	unsubRets      []int64
+	unsubCalls      []int64
+	unsubRets       []int64
 }
 
 type c13Obs struct {
@@ -420,7 +420,7 @@ func c13Model() porcupine.Model {
 			}
 			return false, state
 		},
-		Equal: func(a, b any) bool { return a.(string) == b.(string) },
+		Equal:             func(a, b any) bool { return a.(string) == b.(string) },
 		DescribeOperation: func(in, out any) string { return fmt.Sprintf("%+v -> %v", in, out) },
 	}
 }
